@@ -19,7 +19,7 @@ PROFILES = {
     'counters': dict(batch=1, submit=5, late_child=3, update=3, groups=3, jobs=4, commit=4, cancel=6, delete=1, instance=1, deactivate=2,
                      schedule=9, creating=1, started=5, complete=12, unschedule=2, sched_loop=7, cancel_ready=3, cancel_creating=1,
                      cancel_running=2, cancel_orphans=1, cleanup_staging=2, cleanup_cancellable=2, tick=1),
-    'billing': dict(batch=1, submit=4, cancel=1, instance=1, deactivate=2, schedule=5, creating=1, jp_schedule=1, activate=1, started=9,
+    'billing': dict(batch=1, submit=4, cancel=1, cancel_creating=1, cancel_creating_crash=1, instance=1, deactivate=2, schedule=5, creating=1, jp_schedule=1, activate=1, started=9,
                     complete=9, billing=9, unschedule=2, sched_loop=3, burst=8, compact=3, compact_by_date=3, tick=9, daytick=2),
     'lifecycle': dict(batch=1, submit=6, late_child=4, update=1, jobs=2, commit=2, cancel=3, instance=2, deactivate=2, schedule=6, schedule_any=3,
                       creating=4, activate=3, jp_schedule=3, cancel_creating=2, started=5, started_fresh=2, complete=9, unschedule=3, sched_loop=3,
@@ -33,7 +33,7 @@ PROFILES = {
                    started=4, complete=5, sched_loop=5, cancel_ready=3, cancel_creating=2, cancel_running=3, cleanup_cancellable=2,
                    tick=1),
     'instances': dict(batch=1, submit=5, instance=4, activate=4, deactivate=4, mark_deleted=2, schedule=8, schedule_any=2, creating=5, jp_schedule=4,
-                      started=5, started_fresh=2, complete=8, unschedule=4, sched_loop=3, cancel_running=2, cancel_orphans=2, cancel=3, cancel_creating=3, cancel_ready=1,
+                      started=5, started_fresh=2, complete=8, unschedule=4, sched_loop=3, cancel_running=2, cancel_orphans=2, cancel=3, cancel_creating=3, cancel_creating_crash=1, cancel_ready=1,
                       tick=1),
     'uncommitted': dict(batch=1, submit=4, late_child=2, update=6, groups=4, jobs=7, commit=3, cancel=3, instance=1, schedule=6, complete=9,
                         sched_loop=6, cancel_ready=3, cancel_running=1, cleanup_staging=1, tick=1),
@@ -41,7 +41,7 @@ PROFILES = {
 
 
 # in how many of four cases a 'chain' is woven into the history (see strategies)
-CHAINS = {'lifecycle': 1, 'deps': 1, 'counters': 1, 'cancel': 2, 'instances': 1, 'groups': 1}
+CHAINS = {'lifecycle': 1, 'deps': 1, 'counters': 1, 'cancel': 2, 'instances': 1, 'groups': 1, 'billing': 1}
 
 
 def strategies(profile, max_ops=40):
@@ -109,6 +109,8 @@ def strategies(profile, max_ops=40):
             return st.tuples(st.just('unschedule'), st.integers(0, 12), st.sampled_from([False, True])).map(list)
         if kind == 'sched_loop':
             return st.tuples(st.just('sched_loop'), st.sampled_from([0, 0, 0, 1])).map(list)
+        if kind == 'cancel_creating_crash':
+            return st.just(['cancel_creating', True])
         if kind == 'tick':
             return st.tuples(st.just('tick'), st.sampled_from([1, 10, 100, 1000, 60_000])).map(list)
         if kind == 'daytick':
@@ -139,6 +141,11 @@ def strategies(profile, max_ops=40):
         if ar:
             j['ar'] = True
         steps = [['submit', 0, [0, -1, -2][:nest], [j]]]
+        if jp and mid_cancel == 4:
+            # the VM never activates: (optionally cancelled while Creating, withdrawn by the canceller, then) activation timeout
+            steps += [['creating', -1, 0, None]] + ([['cancel', 0, 0], ['cancel_creating', cst == 2]] if cst else []) + \
+                     [['tick', 1000], ['deactivate', -1, 'activation_timeout']]
+            return steps
         if jp:
             steps += [['creating', -1, 0, None], ['activate', -1], ['jp_schedule', -1]]
         else:
